@@ -108,8 +108,19 @@ def run(ctx):
         det = ''
         for o in pstores:
             e = wf.expand(o.info) if o.info is not None else None
-            alts = e.values if isinstance(e, ast.BoolOp) else [e]
+            def _alts(x):
+                if isinstance(x, ast.BoolOp):
+                    return [y for v in x.values for y in _alts(v)]
+                if isinstance(x, ast.IfExp):
+                    return _alts(x.body) + _alts(x.orelse)
+                return [x]
+            alts = _alts(e)
             for a in alts:
+                # a class-level constant read through cls / self / the class name
+                if isinstance(a, ast.Attribute) and isinstance(a.value, ast.Name) and a.value.id in ('cls', 'self', CLS.split('.')[-1]):
+                    cm = ci.members.get(a.attr)
+                    if isinstance(cm, tuple) and cm[0] == 'value':
+                        a = cm[1]
                 good = isinstance(a, ast.Call) and call_name(a) == 'tuple'
                 if not good and a is not None:
                     try:
@@ -204,12 +215,28 @@ def run(ctx):
     pops = []
     from rules.common import with_helpers
     for hf in with_helpers(prog, rp):
+        # local aliases of a bound pop: `drop = ret.pop` / `add, drop = ret.append, ret.pop`
+        pop_alias = {}
+        for n in ast.walk(hf.node):
+            if isinstance(n, ast.Assign) and len(n.targets) == 1:
+                pairs = [(n.targets[0], n.value)]
+                if isinstance(n.targets[0], ast.Tuple) and isinstance(n.value, ast.Tuple) and len(n.targets[0].elts) == len(n.value.elts):
+                    pairs = list(zip(n.targets[0].elts, n.value.elts))
+                for tg, vv in pairs:
+                    if isinstance(tg, ast.Name) and isinstance(vv, ast.Attribute) and vv.attr == 'pop':
+                        pop_alias[tg.id] = vv
         for n in ast.walk(hf.node):
             if isinstance(n, ast.If):
                 for st in n.body:
-                    if isinstance(st, ast.Expr) and isinstance(st.value, ast.Call) and isinstance(st.value.func, ast.Attribute) \
-                            and st.value.func.attr == 'pop' and not st.value.args:
-                        pops.append((n, st.value, hf))
+                    if not (isinstance(st, ast.Expr) and isinstance(st.value, ast.Call) and not st.value.args):
+                        continue
+                    c = st.value
+                    if isinstance(c.func, ast.Attribute) and c.func.attr == 'pop':
+                        pops.append((n, c, hf))
+                    elif isinstance(c.func, ast.Name) and c.func.id in pop_alias:
+                        c2 = ast.copy_location(ast.Call(func=pop_alias[c.func.id], args=[], keywords=[]), c)
+                        c2._orig = c
+                        pops.append((n, c2, hf))
     if not pops:
         ctx.unknown('T7.unroot', rp.fq, 'no guarded <list>.pop() statement found', rp.loc)
     for ifn, c, hf in pops:
@@ -221,7 +248,7 @@ def run(ctx):
         wrong = []
         # the whole guard of the pop: every enclosing condition that mentions the list, in evaluation order (short-circuit)
         dnf = [[(a, t) for a, t in conj if any(isinstance(x, ast.Name) and x.id == var for x in ast.walk(a))]
-               for conj in guard_dnf(hf, c)]
+               for conj in guard_dnf(hf, getattr(c, '_orig', c))]
 
         def guard_value(env):
             for conj in dnf:
